@@ -65,10 +65,15 @@ class HttpImpl:
             return '"' + self.toks.of_etag(m.group(1), "tree") + '"'
         return "?" + etag
 
-    def conc_header(self, h):
+    def conc_header(self, h, ctag=None):
+        """symbolic header -> the header sent: bN -> the ETag of that content, ctag -> the collection's
+        current tag (hex tags of earlier states pass through unchanged)"""
         if h is None:
             return None
-        return re.sub(r"b\d+", lambda m: self.toks.etag_of(m.group(0), "tree"), h)
+        h = re.sub(r"\bb\d+\b", lambda m: self.toks.etag_of(m.group(0), "tree"), h)
+        if ctag is not None:
+            h = re.sub(r"\bctag\b", ctag, h)
+        return h
 
     # requests ---------------------------------------------------------------
     def put(self, path, ct, tok, im, inm):
@@ -116,10 +121,10 @@ class HttpImpl:
             return "createdat " + enc(name), name
         return self.write_obs(r, created=True), None
 
-    def delete(self, path, im):
+    def delete(self, path, im, ctag=None):
         hdrs = {}
         if im is not None:
-            hdrs["If-Match"] = self.conc_header(im)
+            hdrs["If-Match"] = self.conc_header(im, ctag)
         r = self.srv.request("DELETE", self.target(path), hdrs)
         if r.status == 204:
             return "deleted"
@@ -141,7 +146,9 @@ class HttpImpl:
             if e is None:
                 return "body ~ ~"
             if method == "HEAD":
-                return "head " + enc(self.sym_etag(e))
+                if r.body:
+                    self.notes.append("C03:head-with-body")
+                return "body %s ~" % enc(self.sym_etag(e))
             return "body %s %s" % (enc(self.sym_etag(e)), enc(self.toks.tok(r.body)))
         if r.status == 304:
             if r.body:
@@ -680,9 +687,19 @@ def execute_http(frontend, prefix, template, toks, attrs, audit_paths, colls=(CA
                     audit_paths = list(audit_paths) + [cpath.rstrip("/") + "/" + name]
             elif kind == "DELETE":
                 _, path, im_sel = op
-                c = cur_of(path)
-                im = header_for(im_sel, c, hist.get(path, []), other_of(path))
-                obs = impl.delete(path, im)
+                if path in known_colls and im_sel != "none":
+                    # a conditional DELETE of a collection: its ETag is the collection tag, written
+                    # `"ctag"` in the protocol line; tags of earlier states are sent as they were
+                    _, sha = impl.tags(path)
+                    seen = hist.setdefault(path, [])
+                    im = header_for(im_sel, "ctag" if sha else None, [t for t in seen if t != sha], other_of(path))
+                    if sha and sha not in seen:
+                        seen.append(sha)
+                    obs = impl.delete(path, im, ctag=sha)
+                else:
+                    c = cur_of(path)
+                    im = header_for(im_sel, c, hist.get(path, []), other_of(path))
+                    obs = impl.delete(path, im)
                 lines.append("DELETE %s %s | %s" % (enc(path), enc(im), obs))
                 if obs == "deleted" and path in known_colls:
                     known_colls.remove(path)
@@ -694,12 +711,12 @@ def execute_http(frontend, prefix, template, toks, attrs, audit_paths, colls=(CA
                 if obs == "mkcol":
                     import posixpath
                     known_colls.append(posixpath.normpath(path))
-            elif kind == "GET":
+            elif kind in ("GET", "HEAD"):
                 _, path, inm_sel = op
                 c = cur_of(path)
                 inm = header_for(inm_sel, c, hist.get(path, []), other_of(path))
-                obs = impl.get(path, inm)
-                lines.append("GET %s %s | %s" % (enc(path), enc(inm), obs))
+                obs = impl.get(path, inm, method=kind)
+                lines.append("%s %s %s | %s" % (kind, enc(path), enc(inm), obs))
                 continue
             elif kind == "SYNC":
                 _, cpath, which = op
@@ -828,9 +845,18 @@ def gen_http_template(rng, toks, length, profile="mixed"):
         elif r < 0.7:
             ops.append(("DELETE", path, "none" if "/.git/" in path else sel()))
         elif r < 0.8:
-            ops.append(("GET", path, "none" if "/.git/" in path else sel()))
+            ops.append(("HEAD" if rng.random() < 0.35 else "GET", path, "none" if "/.git/" in path else sel()))
         elif r < 0.86:
-            if profile in ("sync", "tags") and rng.random() < 0.8:
+            if profile == "cond" and rng.random() < 0.7:
+                # conditional DELETE of a whole collection (its ETag is the collection tag): first with
+                # a condition that cannot hold, then — after a write — with a drawn one (`stale` is then
+                # the tag read at the first attempt); the collection is created again if it went away
+                ops.append(("DELETE", CAL, rng.choice(["list-miss", "other", "unquoted", "weak"])))
+                ops.append(("PUT", CAL + "/" + rng.choice(["a.ics", "b.ics", "fresh.ics"]), "text/calendar",
+                            rng.choice(icals), "none", "none"))
+                ops.append(("DELETE", CAL, rng.choice(["stale", "stale", "cur", "star", "list-cur", "list-miss"])))
+                ops.append(("MKCALENDAR", CAL))
+            elif profile in ("sync", "tags") and rng.random() < 0.8:
                 ops.append(("SYNC", CAL if rng.random() < 0.7 else BOOK,
                             rng.choice(["all", "all", "empty", "foreign", "malformed"])))
             elif (profile == "tags" and rng.random() < 0.9) or (profile == "mixed" and rng.random() < 0.4):
